@@ -242,9 +242,9 @@ def conds(tier):
                         family="three callers of one key: delays x dirty() flags, symbolic schedule (a later caller "
                                "after dirty() + re-creation)", encodes=ENC))
     if not q:
-        ps = []
-        for i in range(3):
-            ps += [I("cal%d" % i, 0, 1), I("sp%d" % i, 0, 1), I("a%d" % i, 0, 1), I("b%d" % i, 1, 1),
+        ps = [I("cal0", 0, 1), I("sp0", 0, 1), I("a0", 1, 1), I("b0", 1, 1), I("c0", 0, 0), I("dl0", 0, 2), B("dirty0")]
+        for i in (1, 2):
+            ps += [I("cal%d" % i, 0, 1), I("sp%d" % i, 0, 0), I("a%d" % i, 1, 1), I("b%d" % i, 1, 1),
                    I("c%d" % i, 0, 0), I("dl%d" % i, 0, 2), B("dirty%d" % i)]
         ps += [I("p0"), I("p1"), I("ho", 0, 1), I("fk", 0, 1), B("again")]
         out.append(Cond("three", mk(3), ps, pin=4, builds=("C",), budget=3000,
